@@ -39,6 +39,9 @@ func bad_slice_off_by_one(b []byte, h *hdr) []byte { if len(b) < 7+int(h.n) { re
 func ok_loop_div(b []byte) int { s := 0; for i := 0; i < len(b)/4; i++ { s += int(b[4*i+3]) }; return s }
 func bad_index_loop_div(b []byte) int { s := 0; for i := 0; i < len(b)/4; i++ { s += int(b[4*i+4]) }; return s }
 func ok_mod(b []byte) []byte { if len(b)%16 != 0 || len(b) == 0 { return nil }; return b[len(b)-16:] }
+func ok_slice_cap(b []byte, n int) []byte { if n < 0 { return nil }; if cap(b) < n { b = make([]byte, n) }; return b[:n] }
+func bad_slice_cap(b []byte, n int) []byte { if n < 0 || len(b) < 1 { return nil }; return b[:n] }
+func bad_index_after_reslice(b []byte) byte { c := b[:cap(b)]; _ = c; if len(b) < 1 { return 0 }; return b[cap(b)-1] }
 func bad_div_zero(n, d int) int { return n / d }
 func ok_div(n, d int) int { if d <= 0 { return 0 }; return n / d }
 func bad_make_neg(n int) []byte { return make([]byte, n) }
